@@ -176,7 +176,7 @@ var c14Block16 = []uint16{0xFFFF, 0x0000, 0x00FF, 0xFF00, 0x0001, 0xFFFE, 0x5555
 var c14Block8 = []uint16{0xFF, 0x00, 0x01, 0xFE}
 
 func runC14(r *engine.Run) {
-	r.Rule = "E2 + E1. Dynamic-channel bands (11): network states by explicit-state BFS over AddChannel(fresh,CFList range), AddChannel(fresh,6..6), AddChannel(0: placeholder), AddChannel(fresh, inverted DR range: accepted or refused - a refused call changes nothing) (at most 3 additions quick / 4 thorough) and Toggle(i) for every channel until the state set closes; in every distinct state every device channel subset of {0..n} (n = one index beyond the plan) is planned, applied by the independent device model (mc/spec/region.go ApplyLinkADR) and by the library's apply function. Full 16-channel plan (3/2 standard + custom) x 6 network patterns x all 2^16 device subsets. Fixed plans (US915, AU915: 72; CN470: 96): network set and device set each range over the product of per-block patterns (16-channel blocks: quick 4 / thorough 7 patterns, CN470 with its six blocks 3 / 5; 500 kHz block: 4 patterns), network sets produced by real Disable/Enable calls in ascending and descending order. Obligations: result of applying = network-enabled channels the device can know; every payload encodable; #payloads <= ceil(plan/16)+1; nothing when the device matches; no panic. Non-trivial: a (network, device) pair for which the planner returned and the result was compared."
+	r.Rule = "E2 + E1. Dynamic-channel bands (11): network states by explicit-state BFS over AddChannel(fresh,CFList range), AddChannel(fresh,6..6), AddChannel(0: placeholder), AddChannel(the frequency of a standard channel, 6..6), AddChannel(fresh, inverted DR range: accepted or refused - a refused call changes nothing) (at most 3 additions quick / 4 thorough) and Toggle(i) for every channel until the state set closes; in every distinct state every device channel subset of {0..n} (n = one index beyond the plan) is planned, applied by the independent device model (mc/spec/region.go ApplyLinkADR) and by the library's apply function. Full 16-channel plan (3/2 standard + custom) x 6 network patterns x all 2^16 device subsets. Fixed plans (US915, AU915: 72; CN470: 96): network set and device set each range over the product of per-block patterns (16-channel blocks: quick 4 / thorough 7 patterns, CN470 with its six blocks 3 / 5; 500 kHz block: 4 patterns), network sets produced by real Disable/Enable calls in ascending and descending order. Obligations: result of applying = network-enabled channels the device can know; every payload encodable; #payloads <= ceil(plan/16)+1; nothing when the device matches; no panic. Non-trivial: a (network, device) pair for which the planner returned and the result was compared."
 	bandConstructionStability(r)
 	bandGetterHistory(r)
 	r.Rule += " E3 (schedules): one band object shared by three threads that plan LinkADRReq payloads for three devices concurrently (CN470 / US915 / EU868 with custom channels), every interleaving of the probes on receiver fields some method writes and of synchronisation operations (preemption-bounded and, with state-key pruning, unbounded); each plan must equal the plan made alone, no data race, no deadlock."
@@ -226,6 +226,17 @@ func runC14(r *engine.Run) {
 				return "ok"
 			}},
 		}
+		// a custom channel on the frequency of a standard channel (another data-rate range on the same
+		// frequency, LoRa and FSK say): two enabled channels then share a frequency
+		ops = append(ops, engine.XOp{Name: "Add(frequency of standard channel 1, 6..6)", Do: func(obj interface{}) string {
+			b := obj.(band.Band)
+			n := len(b.GetUplinkChannelIndices())
+			if n-nStd >= maxAdds {
+				return "skip"
+			}
+			b.AddChannel(init.UplinkChannels[1%nStd].Frequency, 6, 6)
+			return "ok"
+		}})
 		// an addition the band may refuse (inverted data-rate range): "any history of adding ..." includes
 		// refused calls, which leave the plan as it was
 		ops = append(ops, engine.XOp{Name: "Add(inverted range)", Do: func(obj interface{}) string {
